@@ -38,7 +38,7 @@ type c06Hist struct {
 
 func init() {
 	register(&Prop{ID: "C06", Run: c06Run,
-		Rule: "histories of Put (leaf / list / container values, incl. leafless containers) / Add / Populate over 4 layer names and path-safe paths of 1-3 components from a 5-key pool with 0-2 index groups (indices 0-3) per component, one write in five aimed at a position an earlier layer defines, into a later layer: Put of a nil leaf (at the leaf or a prefix), Populate with a nil value, or a sparse list write (index >= 1 into a list the later layer does not have, so its null padding covers the earlier items); generated against a scratch overlay so that at most a few steps fall outside the domain (those are skipped by the same decidable predicate at evaluation time); after every write the layer names and every layer's content (Layers()) are compared; after every write every layer's flattened leaves are also read back through the live overlay (Lookup of every path, LookupAny against the first layer that has the path, Search(all), Walk, Merged under alternating strategies against the reference fold); one write in six hands the overlay the very node object of an earlier write (then Merged under both strategies is read at once); reads (LayerNames, Lookup, LookupAny, Search with 4 predicate kinds, Walk with and without early stop, Merged with both list strategies (against the fold of the implementation's own Merge and, independently, against the reference merge of the property text folded over the per-layer AsMap values) + Serialize, Layers() snapshots re-read at the end) are interleaved; one history in three uses components that LOOK like a list-item reference but are member names (cpu[+1], a[-0], a[ 1], a[], a[x], a[0x1], non-ASCII digits, a[1]x; in write paths, in the member names of written containers, and in read paths derived from a known path by turning l[1] into l[+1]); after every write the value is read back from Layers() at the position the path names by the harness's own reading of the addressing scheme, and the layer's root may have gained no member but the one the first component names; Lookup / LookupAny are compared with that reading as well. A case is non-trivial when at least two layers exist at the end and at least 3 writes were executed; distinct = distinct canonical case JSON (hash).",
+		Rule: "histories of Put (leaf / list / container values, incl. leafless containers) / Add / Populate over 4 layer names and path-safe paths of 1-3 components from a 5-key pool with 0-2 index groups (indices 0-3) per component, one write in five aimed at a position an earlier layer defines, into a later layer: Put of a nil leaf (at the leaf or a prefix), Populate with a nil value, or a sparse list write (index >= 1 into a list the later layer does not have, so its null padding covers the earlier items); generated against a scratch overlay so that at most a few steps fall outside the domain (those are skipped by the same decidable predicate at evaluation time); after every write the layer names and every layer's content (Layers()) are compared; after every write every layer's flattened leaves are also read back through the live overlay (Lookup of every path, LookupAny against the first layer that has the path, Search(all), Walk, Merged under alternating strategies against the reference fold); one write in six hands the overlay the very node object of an earlier write (then Merged under both strategies is read at once); one write in eight starts a revisit: three writes into one layer back to back — a scalar Put below a container q that sits at or below a composite position P (mostly a list) of that layer, a Put at P of a fresh copy (one in three: a near-miss copy) of what P holds, which replaces a list wholesale, and a second scalar Put below q; reads (LayerNames, Lookup, LookupAny, Search with 4 predicate kinds, Walk with and without early stop, Merged with both list strategies (against the fold of the implementation's own Merge and, independently, against the reference merge of the property text folded over the per-layer AsMap values) + Serialize, Layers() snapshots re-read at the end) are interleaved; one history in three uses components that LOOK like a list-item reference but are member names (cpu[+1], a[-0], a[ 1], a[], a[x], a[0x1], non-ASCII digits, a[1]x; in write paths, in the member names of written containers, and in read paths derived from a known path by turning l[1] into l[+1]); after every write the value is read back from Layers() at the position the path names by the harness's own reading of the addressing scheme, and the layer's root may have gained no member but the one the first component names; Lookup / LookupAny are compared with that reading as well. A case is non-trivial when at least two layers exist at the end and at least 3 writes were executed; distinct = distinct canonical case JSON (hash).",
 		Assumptions: []string{
 			"domain: no write descends through an existing scalar (a null padding slot of a list, i.e. the nilLeaf singleton at an index step, is not a scalar written by the history and may be descended through), nor by a key step through an existing list (ensurePath's type assertion panics there); out-of-domain steps are skipped on both sides",
 			"Put / Add store the node they are given. Most writes pass fresh nodes; one write in six hands over the very node object of an earlier write again (the same list / container instance in two layers): its content at that moment is the value written, and from then on a write that would modify such an object through one of its positions (a path descending through it) is outside the domain and skipped on both sides — the value model cannot express aliasing",
@@ -429,6 +429,18 @@ func (w *c06World) apply(op c06Op) {
 	}
 }
 
+// finite: no node object the history handed to the overlay is stored below itself.  Every container the overlay makes
+// on its own is fresh and stored once, when made, so a cycle goes through one of the handed-over objects.  Asked before
+// Layers() is called: cloning a cyclic document ends the process (stack overflow), which no recover can catch.
+func (w *c06World) finite() bool {
+	for _, id := range sortedKeys(w.made) {
+		if !dhAcyclic(w.made[id]) {
+			return false
+		}
+	}
+	return true
+}
+
 func (w *c06World) state() (names []string, layers map[string]any) {
 	names = w.ov.LayerNames()
 	layers = map[string]any{}
@@ -586,12 +598,18 @@ func c06Eval(c *Ctx, kind string, raw []byte) {
 			_, before := w.state()
 			var names []string
 			var after map[string]any
+			finite := true
 			out, txt := guard(func() {
 				w.apply(op)
-				names, after = w.state()
+				if finite = w.finite(); finite {
+					names, after = w.state()
+				}
 			})
 			if !c.Direct("no-panic("+op.Op+")", out == "ok", map[string]any{"op": op, "panic": txt}) {
 				return
+			}
+			if !c.Direct("documents-finite(no node stored below itself)", finite, map[string]any{"after": op}) {
+				return // not observed any further
 			}
 			writes++
 			c.Dist("write:" + op.Op)
@@ -1061,7 +1079,81 @@ func c06GenHist(r *rand.Rand, g *DocGen, maxWrites int) c06Hist {
 		nextID++
 		return fmt.Sprintf("n%d", nextID)
 	}
+	// revisit: a position below a composite is written, the composite is then REPLACED by a fresh composite of
+	// (nearly) the same shape through a Put at its own path, and the position below it is written once more — three
+	// writes into one layer, queued back to back.  What the layer holds afterwards must be the replacement plus the
+	// last write; whatever the first write resolved on its way down belongs to the value that is gone.
+	var queue []c06Op
+	revisit := func() bool {
+		if len(w.names) == 0 {
+			return false
+		}
+		l := pick(r, w.names)
+		lw := nodeWire(w.ov.Layers()[l])
+		var pairs, listPairs [][2]string // (composite position P, container position q at or below P)
+		var walk func(x W, path string, above []string, aboveList []bool)
+		walk = func(x W, path string, above []string, aboveList []bool) {
+			switch v := x.(type) {
+			case []any:
+				if path != "" {
+					above, aboveList = append(append([]string{}, above...), path), append(append([]bool{}, aboveList...), true)
+				}
+				for i, e := range v {
+					walk(e, fmt.Sprintf("%s[%d]", path, i), above, aboveList)
+				}
+			case map[string]any:
+				c, ok := v["m"].(map[string]any)
+				if !ok {
+					return
+				}
+				if path != "" {
+					above, aboveList = append(append([]string{}, above...), path), append(append([]bool{}, aboveList...), false)
+					for i, p := range above {
+						pairs = append(pairs, [2]string{p, path})
+						if aboveList[i] {
+							listPairs = append(listPairs, [2]string{p, path})
+						}
+					}
+				}
+				for _, k := range sortedKeys(c) {
+					walk(c[k], c06ToPath(path, k), above, aboveList)
+				}
+			}
+		}
+		walk(lw, "", nil, nil)
+		if len(listPairs) > 0 && r.Intn(4) > 0 {
+			pairs = listPairs
+		}
+		if len(pairs) == 0 {
+			return false
+		}
+		pq := pick(r, pairs)
+		cur := nodeWire(w.ov.Lookup(l, pq[0]))
+		if cur == nil {
+			return false
+		}
+		repl := deepCopyW(cur)
+		if r.Intn(3) == 0 {
+			repl = g.Mutate(r, cur)
+		}
+		k1, k2 := pick(r, c06Keys), pick(r, c06Keys)
+		queue = append(queue,
+			c06Op{Op: "put", L: l, Path: pq[1] + "." + k1, V: g.Scalar(r)},
+			c06Op{Op: "put", L: l, Path: pq[0], V: repl},
+			c06Op{Op: "put", L: l, Path: pq[1] + "." + k2, V: g.Scalar(r)})
+		return true
+	}
 	genWrite := func() c06Op {
+		if len(queue) > 0 {
+			op := queue[0]
+			queue = queue[1:]
+			return op
+		}
+		if r.Intn(8) == 0 && revisit() {
+			op := queue[0]
+			queue = queue[1:]
+			return op
+		}
 		if len(reusable) > 0 && r.Intn(6) == 0 {
 			// the very node object of an earlier write once more: into another layer at the same path (mostly), or
 			// at another path
@@ -1182,8 +1274,9 @@ func c06GenHist(r *rand.Rand, g *DocGen, maxWrites int) c06Hist {
 		}
 		if w.inDomain(op) {
 			out, _ := guard(func() { w.apply(op) })
-			if out != "ok" {
-				// the implementation panicked inside the domain: keep the step, the evaluation reports it
+			if out != "ok" || !w.finite() {
+				// the implementation panicked inside the domain, or stored a node below itself: keep the step, the
+				// evaluation reports it
 				ops = append(ops, op)
 				break
 			}
